@@ -516,8 +516,14 @@ def o_decl(d):
     if isinstance(d, ip.TypedefTemplateInstantiation):
         return {'k': 'typedef', 't': o_typename(d.typename), 'n': d.new_name, 'path': _path(d)}
     if isinstance(d, ip.GlobalFunction):
-        return {'k': 'func', 'tpl': o_tpl(d.template), 'r': o_ret(d.return_type), 'n': d.name,
-                'a': o_args(d.args), 'path': _path(d)}
+        r = {'k': 'func', 'tpl': o_tpl(d.template), 'r': o_ret(d.return_type), 'n': d.name,
+             'a': o_args(d.args), 'path': _path(d)}
+        # the argument list and the return type of a function point back at it
+        if getattr(d.args, 'parent', None) is not d:
+            r['args_parent_wrong'] = getattr(getattr(d.args, 'parent', None), 'name', repr(getattr(d.args, 'parent', None)))
+        if getattr(d.return_type, 'parent', None) is not d:
+            r['return_parent_wrong'] = True
+        return r
     if isinstance(d, ip.Enum):
         return {'k': 'enum', 'n': d.name, 'e': [e.name for e in d.enumerators], 'path': _path(d), 'scope': list(d.namespaces())}
     if isinstance(d, ip.Variable):
